@@ -521,7 +521,8 @@ def ray_hfield(
   lpnt, lvec = _ray_map(pos, mat, pnt, vec)
 
   # construct basis vectors of normal plane
-  b0, b1 = _orthogonal_basis(lvec)
+  # the basis construction needs a unit vector; the ray direction may have any length
+  b0, b1 = _orthogonal_basis(wp.normalize(lvec))
 
   # find ray segment intersecting top box
   seg = wp.vec2(0.0, top_intersect)
@@ -650,7 +651,8 @@ def ray_mesh(
   pnt, vec = _ray_map(pos, mat, pnt, vec)
 
   # compute orthogonal basis vectors
-  b0, b1 = _orthogonal_basis(vec)
+  # the basis construction needs a unit vector; the ray direction may have any length
+  b0, b1 = _orthogonal_basis(wp.normalize(vec))
 
   x = float(-1.0)
   normal = wp.vec3()
